@@ -102,11 +102,20 @@ def rule_r1(p, res):
         tests = [n_ for n_ in walk_own(w) if isinstance(n_, ast.If)]
         need(len(tests) == 1 and "isinstance(%s, np.ndarray)" % img in norm(tests[0].test), "C18.R1: %s must dispatch on isinstance(image, np.ndarray)" % deco)
         if deco == "imgfeature":
-            r.check(firsts == [img, img], f, w, "imgfeature must hand an Image to the feature on both paths")
-            arr_branch = tests[0].body if not norm(tests[0].test).startswith("not") else tests[0].orelse
-            from ..astutil import norm_block
-            s = norm_block(arr_branch, " ")
-            r.check("%s = Image(%s, copy=False)" % (img, img) in s and ".pixels" in s, f, w, "on the array path imgfeature must wrap the array in an Image and return the result's pixels")
+            dw = Defs(w)
+            wrapped_img = "Image(%s, copy=False)" % img
+            efirsts = sorted(norm(expand(c.args[0], dw)) for c in calls)
+            if efirsts == sorted([img, wrapped_img]):
+                # the array is wrapped into a fresh local: the result's pixels must be what the array path returns
+                r.ok()
+                rets = [norm(expand(x.value, dw)) for x in returns_of(w) if x.value is not None]
+                r.check(any(x.endswith(".pixels") and wrapped_img in x for x in rets), f, w, "on the array path imgfeature must wrap the array in an Image and return the result's pixels")
+            else:
+                r.check(firsts == [img, img], f, w, "imgfeature must hand an Image to the feature on both paths")
+                arr_branch = tests[0].body if not norm(tests[0].test).startswith("not") else tests[0].orelse
+                from ..astutil import norm_block
+                s = norm_block(arr_branch, " ")
+                r.check("%s = Image(%s, copy=False)" % (img, img) in s and ".pixels" in s, f, w, "on the array path imgfeature must wrap the array in an Image and return the result's pixels")
         else:
             r.check(firsts == sorted([img, img + ".pixels"]), f, w, "%s must hand image.pixels (image path) or the array itself (array path) to the feature" % deco)
             rb = "rebuild_feature_image" if deco == "ndfeature" else "rebuild_feature_image_with_centres"
